@@ -10,7 +10,7 @@ constructs become `opaque` values / `unknown` effects which the rules treat as
 """
 import itertools
 
-from .facts import show, AnalysisBroken, strip_copies, strip_casts
+from .facts import show, AnalysisBroken, strip_copies, strip_casts, walk_expr, walk_stmts
 
 INT_MAX = 2147483647
 INT_MIN = -2147483648
@@ -1669,6 +1669,25 @@ class Symex:
                                 rv = self.read_lp(q2, rv.term[1], e)
                             res.append((q2, rv))
                     return res
+        # --- std::for_each(c.begin(), c.end(), [..](T x) { body }): the range-for over c it stands for
+        if callee == 'std::for_each' and obj is None and len(e.get('args', [])) == 3:
+            a0, a1, a2 = strip_casts(e['args'][0]), strip_casts(e['args'][1]), e['args'][2]
+            lam = next((x for x in walk_expr(a2) if x.get('k') == 'lambda'), None)
+            lf = None
+            if lam is not None:
+                c_ = [x for x in self.facts.by_q.get(lam.get('fn'), []) if x['tmpl'] in ('none', 'inst')]
+                lf = c_[0] if c_ else None
+            if lf is not None and len(lf.get('params', [])) == 1 and a0 is not None and a1 is not None and a0.get('k') == 'call' and a1.get('k') == 'call' and \
+                    (a0.get('callee') or '').split('::')[-1] in ('begin', 'cbegin') and (a1.get('callee') or '').split('::')[-1] in ('end', 'cend') and \
+                    a0.get('obj') is not None and a1.get('obj') is not None and show(a0['obj']) == show(a1['obj']) and \
+                    not any(st_['k'] == 'return' for st_ in walk_stmts(lf['body'])):
+                pv = lf['params'][0]
+                loop = {'k': 'rangefor', 'loc': e.get('loc') or [0, 0], 'sid': None, 'range': a0['obj'], 'body': lf['body'],
+                        'var': {'d': pv['d'], 'name': pv.get('name'), 'cty': pv.get('cty') or '', 'is_ref': '&' in (pv.get('cty') or '')}}
+                res = []
+                for q, flow in self.exec_rangefor(loop, p, ctx):
+                    res.append((q, Val(('void',))))
+                return res
         # --- std::move / std::forward / std::as_const: the value of the argument
         if callee in ('std::move', 'std::forward', 'std::as_const') and obj is None and len(e['args']) == 1:
             return self.eval(e['args'][0], p, ctx)
